@@ -110,11 +110,13 @@ namespace pika::thread_pool_bulk_detail {
                 template <typename Ts>
                 void do_work_chunk(Ts& ts, std::uint32_t const index) const
                 {
-                    auto const i_begin =
-                        static_cast<Shape>(index) * static_cast<Shape>(task_f->chunk_size);
-                    auto const i_end = (std::min)(
-                        (static_cast<Shape>(index) + 1) * static_cast<Shape>(task_f->chunk_size),
-                        task_f->n);
+                    // The bounds are computed in 64 bits: with a narrow or signed Shape the product
+                    // can exceed the range of Shape before it is clamped to n
+                    auto const n = static_cast<std::uint64_t>(task_f->n);
+                    auto const i_begin = static_cast<Shape>(
+                        (std::min)(static_cast<std::uint64_t>(index) * task_f->chunk_size, n));
+                    auto const i_end = static_cast<Shape>(
+                        (std::min)((static_cast<std::uint64_t>(index) + 1) * task_f->chunk_size, n));
                     for (auto i = i_begin; i < i_end; ++i)
                     {
                         std::apply(pika::util::detail::bind_front(op_state->f, i), ts);
@@ -183,7 +185,7 @@ namespace pika::thread_pool_bulk_detail {
             {
                 operation_state* const op_state;
                 Shape const n;
-                std::uint32_t const chunk_size;
+                std::uint64_t const chunk_size;
                 std::uint32_t const worker_thread;
 
                 // Visit the values sent by the predecessor sender.
@@ -258,11 +260,13 @@ namespace pika::thread_pool_bulk_detail {
             // a total number of items n. Returns a power-of-2 chunk
             // size that produces at most 8 and at least 4 chunks per
             // worker thread.
-            static constexpr std::uint32_t get_chunk_size(
+            static constexpr std::uint64_t get_chunk_size(
                 std::uint32_t const num_threads, Shape const n)
             {
-                std::uint32_t chunk_size = 1;
-                while (chunk_size * num_threads * 8 < static_cast<std::uint32_t>(n))
+                // 64-bit arithmetic: in 32 bits the product wraps for shapes above 2^31 (the
+                // loop then never terminates) and shapes of 2^32 and more are truncated
+                std::uint64_t chunk_size = 1;
+                while (chunk_size * num_threads * 8 < static_cast<std::uint64_t>(n))
                 {
                     chunk_size *= 2;
                 }
@@ -282,7 +286,7 @@ namespace pika::thread_pool_bulk_detail {
 
             // Spawn a task which will process a number of chunks. If
             // the queue contains no chunks no task will be spawned.
-            void do_work_task(Shape const n, std::uint32_t const chunk_size,
+            void do_work_task(Shape const n, std::uint64_t const chunk_size,
                 std::uint32_t const worker_thread) const
             {
                 task_function task_f{this->op_state, n, chunk_size, worker_thread};
@@ -325,7 +329,7 @@ namespace pika::thread_pool_bulk_detail {
             // from the predecessor sender. This thread participates in
             // the work and does not need a new task since it already
             // runs on a task.
-            void do_work_local(Shape n, std::uint32_t chunk_size, std::uint32_t worker_thread) const
+            void do_work_local(Shape n, std::uint64_t chunk_size, std::uint32_t worker_thread) const
             {
                 task_function{this->op_state, n, chunk_size, worker_thread}();
             }
@@ -345,7 +349,9 @@ namespace pika::thread_pool_bulk_detail {
                 // Calculate chunk size and number of chunks
                 auto const chunk_size =
                     get_chunk_size(r.op_state->num_worker_threads, r.op_state->shape);
-                auto const num_chunks = (r.op_state->shape + chunk_size - 1) / chunk_size;
+                // at most 8 * num_worker_threads + 1 chunks: fits the 32-bit index queues
+                auto const num_chunks = static_cast<std::uint32_t>(
+                    (static_cast<std::uint64_t>(r.op_state->shape) + chunk_size - 1) / chunk_size);
 
                 // Store sent values in the operation state
                 r.op_state->ts.template emplace<std::tuple<std::decay_t<Ts>...>>(
